@@ -366,6 +366,7 @@ PROFILE_WEIGHTS = {
     "dag": {},
     "fusion-rich": {"elementwise": 3, "reduction": 2, "selection": 2, "manip": 1, "chunk": 1},
     "storage-rich": {"rechunk": 6, "chunk": 2, "multi-output": 2},
+    "helper-rich": {"helper-array": 8, "search": 4},
     "decline": {"scan": 6, "reduction": 2, "linalg": 3, "manip": 2, "multi": 3, "index": 2, "chunk": 2},
 }
 
